@@ -11,7 +11,7 @@ from harness import values as V
 from harness.props import _group as G
 
 PID = "C13"
-TRANSLATE = ["EqReduce.v"]    # translator tie: coq/gen_proofs/EqReduce.v is re-proved against the reductions regenerated from /repo
+TRANSLATE = ["EqReduce.v", "EqPartition.v"]    # translator tie: coq/gen_proofs/EqReduce.v is re-proved against the reductions regenerated from /repo
 PRELUDE = ("From Coq Require Import List ZArith.\nImport ListNotations.\n"
            "From Serif Require Import Base.PyVal Model.Group Corr.GroupCase Corr.C13.")
 FAILING = "C13.failing"
